@@ -42,12 +42,43 @@ thread_local! {
 
 /// Start recording on this thread (dropping anything recorded before).
 pub fn start() {
+    CACHE_PHASE.with(|c| c.borrow_mut().clear());
+    PHASE.with(|p| p.set(0));
+    TALLIES.with(|t| t.borrow_mut().clear());
     SINK.with(|s| *s.borrow_mut() = Some(Vec::new()));
 }
 
-/// Stop recording on this thread and return what was recorded.
+/// Stop recording on this thread and return what was recorded (tallies last, as `tally:<name>` steps
+/// with arguments `[count, sum, max]`).
 pub fn take() -> Vec<Event> {
-    SINK.with(|s| s.borrow_mut().take()).unwrap_or_default()
+    let mut events = SINK.with(|s| s.borrow_mut().take()).unwrap_or_default();
+    TALLIES.with(|t| {
+        for (name, [count, sum, max]) in t.borrow_mut().drain(..) {
+            events.push(Event::Step(name, vec![count, sum, max], vec![]));
+        }
+    });
+    events
+}
+
+thread_local! {
+    static TALLIES: RefCell<Vec<(&'static str, [i64; 3])>> = const { RefCell::new(Vec::new()) };
+}
+
+/// Accumulate a work counter (count, sum, max) instead of recording one event per occurrence.
+pub fn tally(name: &'static str, n: i64) {
+    if is_recording() {
+        TALLIES.with(|t| {
+            let mut t = t.borrow_mut();
+            match t.iter_mut().find(|(k, _)| *k == name) {
+                Some((_, v)) => {
+                    v[0] += 1;
+                    v[1] += n;
+                    v[2] = v[2].max(n);
+                }
+                None => t.push((name, [1, n, n])),
+            }
+        });
+    }
 }
 
 pub fn is_recording() -> bool {
@@ -62,7 +93,42 @@ pub fn emit(event: impl FnOnce() -> Event) {
     });
 }
 
+thread_local! {
+    /// child-line cache keys (hashed) -> the re-flow phase they were inserted in
+    static CACHE_PHASE: RefCell<std::collections::HashMap<u64, u32>> = RefCell::new(Default::default());
+    static PHASE: std::cell::Cell<u32> = const { std::cell::Cell::new(0) };
+}
+
+fn hash_of<T: std::hash::Hash>(key: &T) -> u64 {
+    use std::hash::Hasher;
+    let mut h = std::collections::hash_map::DefaultHasher::new();
+    key.hash(&mut h);
+    h.finish()
+}
+
+pub fn cache_insert<T: std::hash::Hash>(key: &T) {
+    if is_recording() {
+        let phase = PHASE.with(|p| p.get());
+        CACHE_PHASE.with(|c| c.borrow_mut().insert(hash_of(key), phase));
+    }
+}
+
+/// A hit on an entry that was computed before the current re-flow phase is reported: its solution was found
+/// with the token contents of that earlier phase.
+pub fn cache_hit<T: std::hash::Hash>(key: &T, parent_line: usize) {
+    if is_recording() {
+        let phase = PHASE.with(|p| p.get());
+        let inserted = CACHE_PHASE.with(|c| c.borrow().get(&hash_of(key)).copied());
+        if inserted.is_some_and(|i| i < phase) {
+            step("stale_cache_hit", &[parent_line as i64]);
+        }
+    }
+}
+
 pub fn step(name: &'static str, ints: &[i64]) {
+    if name == "reflow_start" {
+        PHASE.with(|p| p.set(p.get() + 1));
+    }
     emit(|| Event::Step(name, ints.to_vec(), vec![]));
 }
 
